@@ -751,6 +751,26 @@ RECURSION = [
 ]
 
 
+# ----------------------------------------------------------------------------- exploration: unbounded call-depth growth (no limits)
+GROWTH = [
+    ("nontail", "local function f() return f() + 1 end return (pcall(f))"),
+    ("nontail-unprotected", "local function f() return f() + 1 end return f()"),
+    ("mutual", "local a, b function a() return b() + 1 end function b() return a() + 1 end return (pcall(a))"),
+    ("in-msgh", "return (xpcall(error, function() local function g() return g() + 1 end return g() end))"),
+    ("in-metamethod", "local function f() return f() + 1 end local t = setmetatable({}, {__index = function() return f() end}) return (pcall(function() return t.x end))"),
+    ("through-metamethod", "local t t = setmetatable({}, {__add = function(a, b) local function g() return g() + 1 end return g() end}) return (pcall(function() return t + 1 end))"),
+    ("in-pcall-chain", "local function f() local ok, v = pcall(f) return 1 + (v or 0) + f() end return (pcall(f))"),
+    ("in-coroutine", "local function f() return f() + 1 end return coroutine.resume(coroutine.create(f))"),
+    ("wrap-recursion", "local function c() return coroutine.wrap(c)() end return (pcall(c))"),
+    ("resume-recursion", "local function r() local ok, e = coroutine.resume(coroutine.create(r)) if not ok then error(e, 0) end return e end return (pcall(r))"),
+    ("data-driven", "local t = {} for i = 1, 1000000 do t = {t} end local function d(t) if t[1] then return 1 + d(t[1]) end return 0 end return (pcall(d, t))"),
+    ("vararg-nontail", "local function f(...) return 1 + f(1, ...) end return (pcall(f))"),
+    ("method-recursion", "local o = {} function o:m() return self:m() .. 'x' end return (pcall(o.m, o))"),
+    ("iterator-recursion", "local function f() for _ in function() return f() end do end end return (pcall(f))"),
+    ("legit-depth-150000", "local function ok(n) if n == 0 then return 0 end return 1 + ok(n - 1) end return ok(150000)"),
+    ("legit-tail-1e6", "local function t(n) if n == 0 then return 'done' end return t(n - 1) end return t(1000000)"),
+]
+
 # ----------------------------------------------------------------------------- exploration: coroutine life-cycle abuse
 # program = CTX (where the action runs: body / __close handler(s) / __gc / message handler / nested pcall with pending close)
 #         x VIA (how the action is reached: directly or through a metamethod, iterator, sort comparator, gsub callback, load reader,
@@ -1087,7 +1107,35 @@ def run(tier, seed):
         elif go_ok != mo_ok:
             # pow/tbl/binop beyond the register budget are rejected later ("not enough registers"): only a parse acceptance the model
             # rejects, or a rejection below the limit that is not a register error, is a difference
-            if go_ok or n <= 150:
+            if go_ok and n > 200:
+                # the real parser accepts nesting beyond its limit: the source itself is the failing input; make it a crash by
+                # deepening the same template until the Go stack gives way (default 1 GB stack, watchdog)
+                if ck.cov["distribution"].get("viol:nesting-unlimited", 0) < 2:
+                    ck.count("viol:nesting-unlimited")
+                    crash = None
+                    for deep in (30000, 300000, 3000000):
+                        big = PD[k](deep)
+                        o = vlib.run_lines_resilient(gvh, ["lua"], ["x %s" % lua_hex(big)], per_case_timeout=240, mem_kb=8 * 1024 * 1024)
+                        r = parse_lua(o[0])
+                        if r["status"] in ("CRASH", "HANG", "gopanic"):
+                            crash = (deep, r)
+                            break
+                        if r["status"] == "compile_error":
+                            break
+                    rp = {"kind": "Go!=S", "engine": "lua", "family": "nest", "label": "%s:%d" % (k, n), "opts": "",
+                          "source": PD[k](n)[:4000], "source_bytes": len(PD[k](n)), "status": "compiled",
+                          "message": "nesting of %d levels (limit %d) compiles: the nesting limit is not enforced for this construct" % (n, 200),
+                          "theorems": ["C04_parser_recursion_depth_bounded"]}
+                    what = "nesting limit not enforced: %s nested %d deep compiles" % (k, n)
+                    if crash:
+                        deep, r = crash
+                        path = os.path.join(ck.work, "big-nest-%s-%d.lua" % (k, deep))
+                        open(path, "w").write(PD[k](deep))
+                        rp.update({"source": None, "source_file": path, "source_bytes": len(PD[k](deep)), "status": r["status"],
+                                   "label": "%s:%d" % (k, deep), "message": r.get("msg", "")[:1500]})
+                        what += "; nested %d deep the process dies: %s %s" % (deep, r["status"], r.get("msg", "")[:100].replace("\n", " | "))
+                    ck.violation(what, rp)
+            elif go_ok or n <= 150:
                 stale.append(("pd", pl[i], pg[i], pm[i]))
             else:
                 ck.count("pd:rejected-later-stage")
@@ -1461,6 +1509,28 @@ def explore(ck, lr, tier):
                              {"kind": "Go!=S", "engine": "lua", "family": "coroutine", "label": label, "status": r1["status"],
                               "message": r1.get("msg", "")[:1500], "source": src, "opts": " ".join(cl[i].split(" ")[2:])})
     ck.cov["coroutine_bad"] = ncobad
+
+    # ---- (e) unbounded growth of the call depth: NO limits at all (only the process ulimit and the watchdog); reference Lua ends each
+    #      of these with an ordinary "stack overflow" error, and so must golua (a fatal out-of-memory is not recoverable by pcall)
+    GQ = ("nontail", "through-metamethod", "wrap-recursion", "resume-recursion", "vararg-nontail", "legit-depth-150000")
+    GROWTH_ = [g for g in GROWTH if not quick or g[0] in GQ]
+    gl_ = ["g%d %s" % (i, lua_hex(src)) for i, (label, src) in enumerate(GROWTH_)]
+    ck.log("call-depth growth family: %d programs" % len(gl_))
+    gouts = lr.run(gl_, timeout=(90 if quick else 300), mem_kb=4 * 1024 * 1024)
+    for i, (label, src) in enumerate(GROWTH_):
+        res = parse_lua(gouts[i]) if i < len(gouts) else {"status": "?"}
+        ck.case("growth " + src, True)
+        ck.count("growth:%s:%s" % (label, res["status"]))
+        if res["status"] in ("gopanic", "CRASH", "HANG", "?"):
+            k = ck.known_match(lambda k: k["id"] == "C04-unbounded-lua-call-depth" and label in k["match"]["labels"])
+            if k:
+                ck.known_finding(k)
+            else:
+                bad_total += 1
+                ck.violation("runaway recursion without a memory limit kills the host instead of raising 'stack overflow': %s -> %s %s" %
+                             (label, res["status"], res.get("msg", "")[:120].replace("\n", " | ")),
+                             {"kind": "Go!=S", "engine": "lua", "family": "growth", "label": label, "status": res["status"],
+                              "message": res.get("msg", "")[:1500], "source": src, "opts": ""})
     panic_inventory(ck)
     ck.cov["bad_outcomes"] = bad_total
 
